@@ -10,6 +10,7 @@ import (
 	"fmt"
 	"math/rand"
 	"os"
+	"strconv"
 	"sort"
 	"strings"
 	"sync"
@@ -231,6 +232,52 @@ func (h *hist) parPhase(u string) error {
 		}
 		plans = append(plans, p)
 	}
+	return h.parRun(plans)
+}
+
+// maxlabelRace: label reservations racing with requests that raise the repo-wide maximum label by other routes
+// (POST maxlabel just above the last reserved label).  Whatever the interleaving, reserved ranges never overlap and never
+// go backwards.
+func (h *hist) maxlabelRace(u string, rounds int) error {
+	var out struct {
+		Ranges []struct {
+			Start, End uint64
+			T0, T1     int64
+			Status     int
+		} `json:"ranges"`
+		Pushes     int64 `json:"pushes"`
+		PushErrors int64 `json:"push_errors"`
+	}
+	if err := h.w.API("c12.hammer", map[string]interface{}{"uuid": u, "name": "lm", "reservations": rounds, "k": 3, "pushers": 4}, &out); err != nil {
+		return err
+	}
+	from := len(h.wd.IDs)
+	base := h.log.clock + 1000
+	var maxT int64
+	for _, rg := range out.Ranges {
+		if rg.Status != 200 {
+			continue
+		}
+		for l := rg.Start; l <= rg.End && l < rg.Start+16; l++ {
+			h.wd.IDs = append(h.wd.IDs, mixed.IDEvent{Kind: "label", ID: l, Scope: "lm", Seq: h.wd.Seq, Epoch: h.w.Epoch, Op: "nextlabel-under-maxlabel-pressure"})
+			h.log.add(ev{Kind: "label", ID: l, T0: base + rg.T0, T1: base + rg.T1, Epoch: h.epoch, Op: "hammer:nextlabel"})
+			h.c.Count("ids_issued_concurrently", 1)
+		}
+		if rg.T1 > maxT {
+			maxT = rg.T1
+		}
+	}
+	h.seenW = len(h.wd.IDs)
+	h.log.clock = base + maxT + 1000
+	h.c.Count("maxlabel_race_reservations", len(out.Ranges))
+	h.c.Count("maxlabel_race_pushes", int(out.Pushes))
+	h.fresh(from)
+	return nil
+}
+
+func (h *hist) parRun(plans []*mixed.Plan) error { return h.parRunOpt(plans, true) }
+
+func (h *hist) parRunOpt(plans []*mixed.Plan, settle bool) error {
 	reqs := make([]drv.Req, len(plans))
 	for i, p := range plans {
 		reqs[i] = p.Req
@@ -267,8 +314,10 @@ func (h *hist) parPhase(u string) error {
 	}
 	sort.Strings(ks)
 	h.c.Seen("concurrent_phase_mixes", strings.Join(ks, ","))
-	if err := h.w.Settle(); err != nil {
-		return err
+	if settle {
+		if err := h.w.Settle(); err != nil {
+			return err
+		}
 	}
 	h.fresh(from)
 	return nil
@@ -317,6 +366,11 @@ func history(c *drv.Ctx, bin string, seed int64, idx int) error {
 				return fmt.Errorf("par phase: %v; stderr: %s", err, drv.FatalInStderr(w.Stderr()))
 			}
 			c.Count("concurrent_phases", 1)
+			from = len(wd.IDs)
+		case x >= 44 && x < 62 && len(open) > 0:
+			if err := h.maxlabelRace(open[r.Intn(len(open))], envInt("C12_RACE_ROUNDS", c.N(150, 600))); err != nil {
+				return fmt.Errorf("maxlabel race: %v; stderr: %s", err, drv.FatalInStderr(w.Stderr()))
+			}
 			from = len(wd.IDs)
 		case x < 44 && x >= 38:
 			if err := h.idProbe(); err != nil {
@@ -664,4 +718,13 @@ func run(c *drv.Ctx) error {
 	}
 	_ = json.Marshal
 	return nil
+}
+
+func envInt(name string, dflt int) int {
+	if s := os.Getenv(name); s != "" {
+		if v, err := strconv.Atoi(s); err == nil {
+			return v
+		}
+	}
+	return dflt
 }
